@@ -194,6 +194,9 @@ pub struct SimInner {
     pub multi_choice_steps: Cell<u64>,
     stop: RefCell<Option<SimStop>>,
     pub actor_steps: RefCell<BTreeMap<(&'static str, u64), u64>>,
+    /// simulated microseconds elapsed when the run ended (read inside the runtime: outside of it
+    /// `tokio::time::Instant::now()` is the real clock)
+    pub final_sim_micros: Cell<u64>,
 }
 
 #[derive(Clone)]
@@ -469,6 +472,7 @@ impl Sim {
                 multi_choice_steps: Cell::new(0),
                 stop: RefCell::new(None),
                 actor_steps: RefCell::new(BTreeMap::new()),
+                final_sim_micros: Cell::new(0),
             }),
         }
     }
@@ -504,7 +508,10 @@ impl Sim {
         let sim = self.clone();
         let outcome = runtime.block_on(async move {
             sim.inner.start.set(Some(tokio::time::Instant::now()));
-            std::future::poll_fn(|cx| sim.poll_root(cx)).await
+            let outcome = std::future::poll_fn(|cx| sim.poll_root(cx)).await;
+            let elapsed = sim.inner.start.get().map(|s| tokio::time::Instant::now().duration_since(s).as_micros() as u64).unwrap_or(0);
+            sim.inner.final_sim_micros.set(elapsed + sim.inner.ticks.get());
+            outcome
         });
         // Whatever is still alive dies with the simulated world.
         self.inner.dead.set(true);
